@@ -190,8 +190,8 @@ func writeEvidenceError(o *Options, msg string, wall float64) {
 		"wall_s":   wall, "violations": 0,
 	}
 	b, _ := json.MarshalIndent(ev, "", " ")
-	os.MkdirAll(filepath.Join(o.Verif, "evidence"), 0o755)
-	os.WriteFile(filepath.Join(o.Verif, "evidence", o.Prop+".json"), b, 0o644)
+	os.MkdirAll(evidenceDir(o), 0o755)
+	os.WriteFile(filepath.Join(evidenceDir(o), o.Prop+".json"), b, 0o644)
 }
 
 func seed() int {
